@@ -37,9 +37,10 @@ type Val struct {
 	Fn  *ssa.Function
 	Bnd []*Val
 	GT  types.Type
-	Box *Val // for interface values created by MakeInterface in this VC: the boxed value
+	Box *Val         // for interface values created by MakeInterface in this VC: the boxed value
 	Lit *big.Int     // untyped integer literal of a specification
 	Alt []types.Type // possible dynamic types (from typeinv / allocation); nil = unknown
+	Src string       // provenance of map/slice values loaded from a field: "Type.field"
 	// KIter: map iteration state
 	It *iterState
 }
@@ -56,16 +57,16 @@ const (
 
 type Addr struct {
 	Kind  AddrKind
-	Base  string       // ref term (AField, ADeref)
-	Owner types.Type   // AField: named struct type owning the path
-	Path  []int        // field index path
-	PathN []string     // field names
-	Cell  *ssa.Alloc   // ACell
-	CIdx  string       // ACell on array: index term ("" if none)
-	Sl    *Val         // AIndex
-	Idx   string       // AIndex
-	Glob  *ssa.Global  // AGlobal
-	ElemT types.Type   // pointee type
+	Base  string      // ref term (AField, ADeref)
+	Owner types.Type  // AField: named struct type owning the path
+	Path  []int       // field index path
+	PathN []string    // field names
+	Cell  *ssa.Alloc  // ACell
+	CIdx  string      // ACell on array: index term ("" if none)
+	Sl    *Val        // AIndex
+	Idx   string      // AIndex
+	Glob  *ssa.Global // AGlobal
+	ElemT types.Type  // pointee type
 }
 
 type iterState struct {
@@ -284,8 +285,10 @@ func (x *VC) assume(guard, cond string) {
 		return
 	}
 	if x.noName > 0 {
-		// inside spec evaluation: type facts are universally valid, but may mention bound variables; drop them.
-		return
+		// inside spec evaluation: type facts are universally valid; those mentioning bound variables are dropped.
+		if strings.Contains(cond, "q_") || strings.Contains(guard, "q_") {
+			return
+		}
 	}
 	x.emit("(assert " + sImp(guard, cond) + ")")
 }
